@@ -377,6 +377,14 @@ class SymSeq:
     def __len__(self):
         return self.n
 
+    # content-level no-ops (case folding, T/U exchange): content is not modelled
+    def replace(self, old, new):
+        assert len(old) == len(new)
+        return self
+
+    def upper(self):
+        return self
+
     def __getitem__(self, sl):
         assert isinstance(sl, slice) and sl.step is None
         lo, ln = pyidx(self.n, sl.start, sl.stop, 1)
